@@ -24,6 +24,7 @@ import uuid as uuidlib
 from urllib.parse import unquote
 
 from harness.c03 import (
+    retry_on_stall,
     ScheduleStream,
     run_schedule,
     schedule_shapes,
@@ -600,6 +601,7 @@ class BuildMatchStream(Stream):
                     break
         return out
 
+    @retry_on_stall
     def real(self, case):
         u, o, u2 = self.run_real(case)
         return f"{u} ; {o if o is not None else '~'} ; {u2 if u2 is not None else '~'}"
@@ -617,6 +619,9 @@ class BuildMatchStream(Stream):
     # ---- the property ------------------------------------------------------------------------------
 
     def oracle(self, case, real_out):
+        if real_out.count(" ; ") != 2:
+            # the map could not even be constructed / bound (an exception outside build and match)
+            return f"constructing the map or the adapter raised {real_out}"
         u, o, u2 = real_out.split(" ; ")
         if u.startswith("EXC"):
             return f"build raised {u[4:]} for values of the canonical domain"
@@ -730,6 +735,8 @@ class BuildMatchStream(Stream):
         return " ; M " in real_out
 
     def bucket(self, case, real_out):
+        if real_out.count(" ; ") != 2:
+            return real_out[:40]
         u, o, _ = real_out.split(" ; ")
         if u.startswith("EXC"):
             return u
@@ -775,6 +782,7 @@ class ConvStream(Stream):
             c = gen_conv04(rng) if rng.random() < 0.85 else ["p"]
             yield {"conv": c, "value": canonical_value(rng, c)}
 
+    @retry_on_stall
     def real(self, case):
         from werkzeug.routing import Map, Rule
 
@@ -860,6 +868,7 @@ class BuildScheduleStream(ScheduleStream):
                 n += 1
                 yield {"cfg": cfg, "rules": rules, "adapter": adapter, "acts": acts, "grants": g}
 
+    @retry_on_stall
     def real(self, case):
         holder = {}
 
